@@ -40,10 +40,16 @@ CLAIMED = {
          "never loses a satisfiable range, 416 iff none satisfiable, single-part slice exactness, ignore rules; model tied to the "
          "code by regenerated constants and by differential correspondence against the real http_range_rfc7233() on mem/file chunk layouts; "
          "HTTP-date model (IMF-fixdate, RFC 850, asctime; timegm) with parse-back theorems for every instant and the theorem that "
-         "If-Modified-Since does not depend on the spelling of the date, the comparison direction being re-read from http_date.c",
+         "If-Modified-Since does not depend on the spelling of the date, the comparison direction being re-read from http_date.c; "
+         "conditional requests: model of http_etag_matches and http_response_handle_cachable with the theorem that on every grammatical "
+         "If-None-Match value (any number of weak/strong tags, any optional white space and empty elements) the scanner decides exactly the RFC 9110 "
+         "weak/strong comparison, so a conditional GET/HEAD is 304 iff the field matches (strong when Range is present), whatever "
+         "If-Modified-Since says; tied by correspondence (11000+ values and decisions per run incl. junk), an RFC monitor, and a pass on the "
+         "running server's static files (validators taken from its own answers)",
     note="trusted: Coq kernel, c2v.py, extraction (ExtrOcamlBasic only), harness glue; strtoll/chunkqueue modelled; multipart framing "
-         "checked by correspondence + client-side parser, not by theorem; RFC 850 two-digit years are proved for the pivot year the harness pins",
-    technique="Coq proof over executable model + differential correspondence (extracted OCaml vs C harness)",
+         "checked by correspondence + client-side parser, not by theorem; RFC 850 two-digit years are proved for the pivot year the harness pins; "
+         "the If-None-Match theorem excludes commas inside opaque tags (RFC etagc allows them; correspondence + monitor cover those)",
+    technique="Coq proof over executable model + differential correspondence (extracted OCaml vs C harness, plus the running server for conditional requests) + RFC 9110 monitor",
     design="5/C15"),
  "C20": dict(
     text="Coq theorems over an executable model of the rule/template machinery (keyvalue.c subst/subst_ext/process, burl_append and its encoders, "
